@@ -139,19 +139,23 @@ func (w *World) dropNode() {
 // afterRound is the Go oracle for what the node's own production loop does with the result of a round (C01, last sentence:
 // no sequence of responses leaves the node unable to produce blocks once the responses are well-formed again).
 //
-// A round in which the sequencing layer was asked and had nothing to build a block from — a transient error of ANY class
-// (a request-level deadline or cancellation of the sequencer's client is not the node's own context ending), no response,
-// no batch — must leave the node RUNNING: the loop neither returns nor reports an error, so the next well-formed round
-// produces a block (the probe at the end of every case checks that it does).  The pinned loops DO halt the node, with an
-// error on the node's error channel, on a round that failed in the execution layer (the block stays stored as the pending
-// block) and on a refused non-empty batch older than the last block (known finding of C11): that is the code's fail-stop
-// design, counted in the distribution; such a halt is followed by a restart in the generated histories and the oracle
-// requires the restarted node to produce (afterBoot, probe).  A loop that ends on its own WITHOUT reporting an error leaves
-// a node that looks alive and produces nothing.
+// (1) A round in which the sequencing layer was asked and had nothing to build a block from — a transient error of ANY
+// class (a request-level deadline or cancellation of the sequencer's client is not the node's own context ending), no
+// response, no batch — must leave the node RUNNING: the loop neither returns nor reports an error, so the next well-formed
+// round produces a block (the probe at the end of every case checks that it does).
+// (2) The pinned loops END — and with them block production in this process — with an error on the node's error channel
+// after a round that failed in the execution layer (the block stays stored as the pending block) and after a refused
+// non-empty batch older than the last block.  That contradicts the sentence above as well (KNOWN findings of C01,
+// signatures production-loop-halted-on-execution-error / -on-regressed-nonempty-batch): it is reported when the loop has
+// really ended (AggregationLoop returned and reported) AND a later well-formed response — a step item of the history, or
+// the probe at the end — finds no process although it would have produced a block (missedRound, probe).  Only a restart
+// resumes production; a halt that is directly followed by a restart loses no well-formed response and is not reported.
+// (3) A loop that ends on its own WITHOUT reporting an error leaves a node that looks alive and produces nothing.
 func (o *Oracle) afterRound(idx int, it Item, obs Obs, roundErr error) {
 	o.Rounds++
 	asked := obs.Req != nil
-	if asked && (it.Seq == "err" || it.Seq == "nil") {
+	fault := asked && (it.Seq == "err" || it.Seq == "nil")
+	if fault {
 		o.FaultRounds++
 		if !obs.Alive {
 			o.fail("production-loop-halted-on-sequencer-fault", fmt.Sprintf("item %d: the sequencing layer answered the round with %s (nothing to build a block from) while the node's context was live; the round returned %v and the node's production loop ended (reported: %q): no block is produced any more although every later response is well-formed",
@@ -162,8 +166,37 @@ func (o *Oracle) afterRound(idx int, it Item, obs Obs, roundErr error) {
 		o.Halts = append(o.Halts, obs.Res)
 		if obs.Halt == "" {
 			o.fail("production-loop-ended-silently", fmt.Sprintf("item %d: the node's production loop returned after a round that ended with %v without being asked to stop and without reporting an error: the node stays up and produces nothing", idx, roundErr))
+			return
+		}
+		if fault {
+			return
+		}
+		switch obs.Res {
+		case "e-exec":
+			o.haltSig = "production-loop-halted-on-execution-error"
+			o.haltWhat = fmt.Sprintf("item %d: ExecuteTxs failed once for height %d; publishBlockInternal returned %q and the node's production loop (AggregationLoop) ended, reporting %q: block production has stopped in this process (the block stays stored as the pending block)", idx, obs.Height+1, roundErr, obs.Halt)
+		case "e-time":
+			o.haltSig = "production-loop-halted-on-regressed-nonempty-batch"
+			o.haltWhat = fmt.Sprintf("item %d: the sequencing layer handed out a non-empty batch stamped %d ms, before the last block; publishBlockInternal returned %q (the batch is dropped) and the node's production loop (AggregationLoop) ended, reporting %q: block production has stopped in this process", idx, it.Ts, roundErr, obs.Halt)
 		}
 	}
+}
+
+// missedRound: a step item of a Cfg.Loop history finds no process.  If the node is down because its production loop ended
+// on its own (haltSig) and the responses of this item are well-formed — a batch not older than the last block, a working
+// execution layer: they commit a block whenever a process runs (C01_no_wedge_full) — the halt has cost a block.
+func (o *Oracle) missedRound(idx int, it Item) {
+	if o.haltSig == "" || it.Seq != "batch" || it.ExecErr {
+		return
+	}
+	st := o.w.Store()
+	h, _ := st.Height(o.w.ctx)
+	if h >= o.w.Cfg.Initial {
+		if hd, err := st.GetHeader(o.w.ctx, h); err != nil || it.Ts < nanoToMs(hd.BaseHeader.Time) {
+			return
+		}
+	}
+	o.fail(o.haltSig, o.haltWhat+fmt.Sprintf("; item %d offers well-formed responses (a batch stamped %d ms, a working execution layer) and finds no process: no block is produced although the responses are well-formed again; only a restart of the node resumes production", idx, it.Ts))
 }
 
 func seqWhat(it Item, idx int) string {
